@@ -702,6 +702,28 @@ func advenfSpec(client string, seed uint64) (*quic.QUICSpec, error) {
 			q.TransportParameters[i] = tls.ActiveConnectionIDLimit([]uint64{2, 3, 4, 5, 6, 8, 9}[r.Intn(7)])
 		}
 	}
+	// a limit carried by a tls.FakeQUICTransportParameter (same ID, same bytes on the wire as the typed
+	// parameter): it is advertised all the same, so it has to be recorded and covered all the same
+	if r.Chance(1, 4) {
+		for i, tp := range q.TransportParameters {
+			switch v := tp.(type) {
+			case tls.InitialMaxData:
+				q.TransportParameters[i] = &tls.FakeQUICTransportParameter{Id: tp.ID(), Val: quicvarint.Append(nil, uint64(v))}
+			case tls.InitialMaxStreamsUni:
+				if r.Bool() {
+					q.TransportParameters[i] = &tls.FakeQUICTransportParameter{Id: tp.ID(), Val: quicvarint.Append(nil, uint64(v))}
+				}
+			case tls.MaxIdleTimeout:
+				if r.Bool() {
+					q.TransportParameters[i] = &tls.FakeQUICTransportParameter{Id: tp.ID(), Val: quicvarint.Append(nil, uint64(v))}
+				}
+			}
+		}
+		// ack_delay_exponent has no type of its own in the tls package
+		if r.Bool() {
+			q.TransportParameters = append(q.TransportParameters, &tls.FakeQUICTransportParameter{Id: 0x0a, Val: []byte{byte(r.Range(0, 20))}})
+		}
+	}
 	if !hasCID && r.Bool() {
 		q.TransportParameters = append(q.TransportParameters, tls.ActiveConnectionIDLimit([]uint64{2, 3, 4, 5, 6, 8, 9}[r.Intn(7)]))
 	}
